@@ -177,25 +177,62 @@ Definition allowed0 (sc : scenario) (p : params) (st : state) (l : label) : bool
           end
       | None => false
       end
-  | LEnvCancelS => match f with FCancel false false => true | _ => false end
-  | LEnvCancelR => match f with FCancel true false => true | _ => false end
-  | LEnvBreakS => match f with FBreak false false => true | _ => false end
-  | LEnvBreakR => match f with FBreak true false => true | _ => false end
-  | LEnvTearDown => false
+  | LEnvCancelS | LEnvCancelR | LEnvBreakS | LEnvBreakR | LEnvTearDown => false   (* see [succs] *)
   | _ => true
+  end.
+
+(* moves that touch nothing any other goroutine reads or writes in a conflicting way, that no
+   other move can disable, and that are the only move of their goroutine: exploring them first
+   (and alone) loses no terminal state — a partial-order reduction with singleton ample sets *)
+Definition safe_local (p : params) (st : state) (l : label) : bool :=
+  match l with
+  | LWorker j | LWorkerOpenErr j =>
+      match nth_error (wks st) j with Some (WK_Open _) | Some (WK_Read _ _) => true | _ => false end
+  | LReq => match rq_pc st with RQ_Close _ | RQ_Ret true => true | _ => false end
+  | LRecvLoop => match rl_pc st with RL_Write _ | RL_CloseP _ => true | _ => false end
+  | LFill => match fl_pc st with FL_Close _ | FL_Ret _ => true | _ => false end
+  | LDiff => match dl_pc st with
+             | DL_Handle i => match kind_of p i with ESame => true | _ => false end
+             | _ => false end
+  | LDiffOuter => match do_pc st with DO_WaitDiff | DO_WaitW => true | _ => false end
+  | _ => false
+  end.
+
+Definition env_fault_label (sc : scenario) : option label :=
+  match sc_fault sc with
+  | FBreak false false => Some LEnvBreakS
+  | FBreak true false => Some LEnvBreakR
+  | FCancel false false => Some LEnvCancelS
+  | FCancel true false => Some LEnvCancelR
+  | _ => None
   end.
 
 (* the harness tears the stream down when either call has returned an error, or on
    quiescence (no goroutine of either call can move); when Send returns it closes the
-   sending direction (LEnvCloseSend: the peer sees EOF after draining) *)
+   sending direction (LEnvCloseSend: the peer sees EOF after draining).  A cancellation /
+   endpoint failure "at operation k" happens inside a stream operation: here it may follow
+   any step that changed one of the two stream directions (and, at_start, precede everything). *)
 Definition succs (sc : scenario) (p : params) (st : state) : list (label * state) :=
   let ss := flat_map (fun l => if allowed0 sc p st l
                                then match step p st l with Some s => [(l, s)] | None => [] end
                                else []) (all_labels st) in
-  let quiet := match ss with [] => true | _ => false end in
-  ss ++ (if returned_err st || quiet
-         then match step p st LEnvTearDown with Some s => [(LEnvTearDown, s)] | None => [] end
-         else []).
+  match find (fun ls => safe_local p st (fst ls)) ss with
+  | Some ls => [ls]
+  | None =>
+    let quiet := match ss with [] => true | _ => false end in
+    let envs := match env_fault_label sc with
+                | None => []
+                | Some el =>
+                    flat_map (fun ls =>
+                      let s' := snd ls in
+                      if (length (buf_sr s') =? length (buf_sr st)) && (length (buf_rs s') =? length (buf_rs st))
+                      then []
+                      else match step p s' el with Some s'' => [(el, s'')] | None => [] end) ss
+                end in
+    ss ++ envs ++ (if returned_err st || quiet
+                   then match step p st LEnvTearDown with Some s => [(LEnvTearDown, s)] | None => [] end
+                   else [])
+  end.
 
 Definition start_state (sc : scenario) (p : params) : state :=
   let st := init p in
